@@ -20,19 +20,19 @@ CLAIMED = {
 }
 
 CLAIMED['C03'] = ('exploration', 'deterministic simulation: seeded concurrent command programs + link situations, wire monitors at the host/controller boundary',
-    'Seeded search: 1-6 concurrent callers x commands from every registered class (values from field specs) and unregistered opcodes x host<->controller latency x controller capability subsets; directed procedure runs in link situations (peer advertising/silent/removed mid-procedure/cancel/unknown handle). Monitors: <=1 outstanding, exactly one Complete/Status per command with the right opcode, every awaitable resolves, accepted procedures conclude. Sampling, not proof.',
+    'Seeded search: 1-6 concurrent callers x commands from every registered class (values from field specs) and unregistered opcodes x host<->controller latency x controller capability subsets; directed procedure runs in link situations (peer advertising/silent/removed mid-procedure/cancel/unknown handle). Monitors: <=1 outstanding, exactly one Complete/Status per command with the right opcode, every awaitable resolves, accepted procedures conclude. Sampling, not proof. Boundary opcodes (0x0000, 0xFFFF, 0x0400, 0xFC00) are among the unregistered ones; a caller that gets an exception instead of a reply is a violation.',
     'Trusted: the latency channels; HCI event parsing in the monitor; completion table written from Core Vol 4 Part E (DESIGN.md App. B). CIS set-up procedures are generated only as random commands, not as a directed situation.', 'DESIGN.md §5 C03')
 
 CLAIMED['C05'] = ('exploration', 'deterministic simulation: seeded buffer geometries, PDU sequences and fragment faults between two full stacks',
-    'Seeded search over ACL buffer length/count on both controllers x LE/BR-EDR x PDU length sequences (boundary family around k*F, 65531/65532/65535) in both directions x latency profiles, with legal re-fragmentation towards the receiving host and malformed fragment sequences (continuation without start, data beyond length, start over start, truncated start, stray continuation) injected between PDUs at host- and controller-side assemblers. Wire monitor on every host->controller ACL packet (length, PB flag, handle, in-flight<=count); receiver sees exactly the sent (cid,payload) sequence. ISO: every emitted fragment checked by an independent parser. Sampling, not proof.',
+    'Seeded search over ACL buffer length/count on both controllers x LE/BR-EDR x PDU length sequences (boundary family around k*F, 65531/65532/65535) in both directions x latency profiles, with legal re-fragmentation towards the receiving host and malformed fragment sequences (continuation without start, data beyond length, start over start, truncated start, stray continuation) injected between PDUs at host- and controller-side assemblers. Wire monitor on every host->controller ACL packet (length, PB flag, handle, in-flight<=count); receiver sees exactly the sent (cid,payload) sequence. ISO: every emitted fragment checked by an independent parser. Sampling, not proof. In 30% of the ACL cases a second connection of the sending device is disconnected while fragments are queued (the shared data packet queue is flushed mid-transfer).',
     'Trusted: the refragmenter keeps the 4-byte L2CAP header in the start fragment (conservative reading); fragment sizes >= 27; ISO path uses a scripted sink because the virtual controller ignores ISO data.', 'DESIGN.md §5 C05')
 
 CLAIMED['C06'] = ('exploration', 'deterministic simulation: seeded multi-device histories on the virtual link with latency, reference model of live connections',
-    'Seeded search over 2-5 full stacks on one LocalLink: advertise (public/random own address, legacy/extended per node, drawn payloads), scan (active/passive), connect (public/random), data on a test fixed channel, disconnect by either/both sides, an incoming connection while an outgoing one is pending, two centrals racing for one advertiser, connect to a silent address; BR/EDR connect/transfer/disconnect. Oracle: the caller gets the connection to the requested address in the central role, the peer reports exactly one connection with matching addresses, no third party sees anything, handles live and distinct, payloads delivered exactly once in order to that connection only, disconnection reported on both sides, scan reports carry the advertiser data byte for byte. Sampling, not proof.',
+    'Seeded search over 2-5 full stacks on one LocalLink: advertise (public/random own address, legacy/extended per node, drawn payloads), scan (active/passive), connect (public/random), data on a test fixed channel, disconnect by either/both sides, an incoming connection while an outgoing one is pending, two centrals racing for one advertiser, connect to a silent address; BR/EDR connect/transfer/disconnect. Oracle: the caller gets the connection to the requested address in the central role, the peer reports exactly one connection with matching addresses, no third party sees anything, handles live and distinct, payloads delivered exactly once in order to that connection only, disconnection reported on both sides, scan reports carry the advertiser data byte for byte. Sampling, not proof. BR/EDR histories include two outgoing connections of one device in flight at once and a second, LE link (central with its public address) between two devices that already share a BR/EDR link, with data on both.',
     'Trusted: per-receiver FIFO air model; privacy off; scanning uses the legacy scan commands (the virtual controller implements no extended scan commands). Passive scanners are not required to see no scan responses.', 'DESIGN.md §5 C06')
 
 CLAIMED['C09'] = ('exploration', 'deterministic simulation: seeded open/close/refuse/data histories over two links sharing one ChannelManager, link cuts at air-message boundaries',
-    'Seeded search over histories of LE CoC / enhanced CoC / classic channel opens from either side, closes by either side, refused opens, data+drain, concurrent opens on two links and a link disconnection fired at a seeded message boundary of an open, close or drain, followed by reconnection and more opens. After every step: ChannelManager tables equal the model of open channels on every device and link, CIDs unique per link, next open succeeds, data flows; every awaited connect/disconnect/drain finishes. Sampling, not proof.',
+    'Seeded search over histories of LE CoC / enhanced CoC / classic channel opens from either side, closes by either side, refused opens, data+drain, concurrent opens on two links and a link disconnection fired at a seeded message boundary of an open, close or drain, followed by reconnection and more opens. After every step: ChannelManager tables equal the model of open channels on every device and link, CIDs unique per link, next open succeeds, data flows; every awaited connect/disconnect/drain finishes. Sampling, not proof. An op issues a refused and a valid open at once, so that channels exist whose CIDs differ between the two devices.',
     'Trusted: both ends are Bumble here (peer CID allocation differing from Bumble is C07); link loss is a host-initiated disconnect by either side (the virtual controller has no supervision timeout).', 'DESIGN.md §5 C09')
 
 CLAIMED['C07'] = ('exploration', 'deterministic simulation: seeded channel parameters and write patterns against bumble or a scripted reference peer, wire-level credit ledger',
@@ -44,39 +44,39 @@ CLAIMED['C08'] = ('exploration', 'deterministic simulation: seeded channel specs
     'Trusted: latency below the 2 s retransmission timer; no loss (ERTM retransmission paths are not exercised: the property speaks of order-preserving delays only); an endpoint that requests FCS has the FCS feature; peer is bumble.', 'DESIGN.md §5 C08')
 
 CLAIMED['C10'] = ('exploration', 'deterministic simulation: seeded attribute databases and raw ATT request programs against the real server, on the fixed and on an enhanced bearer',
-    'Seeded search over generated databases (services, includes, characteristics with every property mix, descriptors, 16/128-bit UUIDs, values 0..512 bytes, static and sync/async callback values, several permission masks), server MTU, one MTU exchange at an arbitrary point, and programs of raw ATT PDUs over all opcodes with valid and invalid handles, inverted ranges, empty and over-long handle sets, offsets past the end, commands, spurious confirmations, undefined opcodes, plus notify/indicate calls with delayed confirmations. Oracle: exactly one response per request (the matching opcode or an Error Response naming it), nothing for commands / confirmations / unknown non-requests, every server PDU <= the bearer ATT_MTU, at most one indication awaiting confirmation per bearer. Sampling, not proof.',
+    'Seeded search over generated databases (services, includes, characteristics with every property mix, descriptors, 16/128-bit UUIDs, values 0..512 bytes, static and sync/async callback values, several permission masks), server MTU, one MTU exchange at an arbitrary point, and programs of raw ATT PDUs over all opcodes with valid and invalid handles, inverted ranges, empty and over-long handle sets, offsets past the end, commands, spurious confirmations, undefined opcodes, plus notify/indicate calls with delayed confirmations. Oracle: exactly one response per request (the matching opcode or an Error Response naming it), nothing for commands / confirmations / unknown non-requests, every server PDU <= the bearer ATT_MTU, at most one indication awaiting confirmation per bearer. Sampling, not proof. Confirmations may come after the server gave up on its indication (35 s): nothing may be sent in reply and the next indication must go out.',
     'Trusted: the raw client obeys ATT (one request at a time, PDUs within ATT_MTU, well-formed layouts for defined opcodes - malformed ones are C17); unencrypted link.', 'DESIGN.md §5 C10')
 
 CLAIMED['C11'] = ('exploration', 'deterministic simulation: seeded permission masks x link security phases (changed by real pairing) x every reading/writing ATT operation, canary values',
-    'Seeded search: generated characteristics and descriptors each carry a unique canary and a permission mask drawn from all 256 combinations; the link goes plain -> Just-Works (encrypted) -> passkey (authenticated) -> reconnect by real SMP pairing; in every phase every read path (read, read blob, read by type, read by group type, read multiple, read multiple variable, find by type value with the exact value) and write path (write request, write command) is aimed at every attribute on the fixed or an enhanced bearer. Oracle from the property text: no server PDU carries the canary of an attribute that is not readable in that phase, no refused write changes the server-side value, a refused single-handle access is answered with an error matching a requirement that really failed. Sampling, not proof.',
+    'Seeded search: generated characteristics and descriptors each carry a unique canary and a permission mask drawn from all 256 combinations; the link goes plain -> Just-Works (encrypted) -> passkey (authenticated) -> reconnect by real SMP pairing; in every phase every read path (read, read blob, read by type, read by group type, read multiple, read multiple variable, find by type value with the exact value) and write path (write request, write command) is aimed at every attribute on the fixed or an enhanced bearer. Oracle from the property text: no server PDU carries the canary of an attribute that is not readable in that phase, no refused write changes the server-side value, a refused single-handle access is answered with an error matching a requirement that really failed. Sampling, not proof. A phase reports encryption off again after pairing (authenticated but not encrypted link); an unpaired second client issues the same read while the secured client\'s read of a dynamic value is being served.',
     'Trusted: ground truth of authenticated = association model configured by the harness; authorisation requirements are never satisfiable; under-granting is not judged. Two genuine defects are open known findings (READABLE/WRITEABLE never enforced; LE encryption implies authenticated), 18 signatures.', 'DESIGN.md §5 C11')
 
 CLAIMED['C12'] = ('exploration', 'deterministic simulation: seeded databases, MTU pairs, clients/bearers and subscription sets between real client and server; scripted adversarial server for termination',
-    'Seeded search over generated databases (mixed UUID widths, value lengths around k*(MTU-1) and MTU-3, static and callback values), client/server MTU 23..517, one or two clients plus an optional enhanced bearer. Oracle: every discovery API reconstructs the independently computed layout (handles, group ends, 128-bit UUID value, properties; default services taken from the server object), reads equal the current server value incl. long reads, writes are visible on the server, a push through each of the four server APIs reaches exactly the bearers subscribed for that kind, as 0x1B or 0x1D on the wire, truncated to MTU-3, and an indicating call returns only after the confirmations are on the wire. Termination: every discovery API against a scripted server (empty lists, repeated/decreasing handles, 0xFFFF, wrong response type, unexpected errors, short entries, non-advancing handles) returns or raises; the 4th identical (request, answer) pair is a non-terminating loop. Sampling, not proof.',
+    'Seeded search over generated databases (mixed UUID widths, value lengths around k*(MTU-1) and MTU-3, static and callback values), client/server MTU 23..517, one or two clients plus an optional enhanced bearer. Oracle: every discovery API reconstructs the independently computed layout (handles, group ends, 128-bit UUID value, properties; default services taken from the server object), reads equal the current server value incl. long reads, writes are visible on the server, a push through each of the four server APIs reaches exactly the bearers subscribed for that kind, as 0x1B or 0x1D on the wire, truncated to MTU-3, and an indicating call returns only after the confirmations are on the wire. Termination: every discovery API against a scripted server (empty lists, repeated/decreasing handles, 0xFFFF, wrong response type, unexpected errors, short entries, non-advancing handles) returns or raises; the 4th identical (request, answer) pair is a non-terminating loop. Sampling, not proof. Also: discovery filtered by UUID (discover_service, discover_characteristics([uuid]), discover_descriptors on the result), a subscriber that never confirms its indication, an application that notifies as soon as the CCCD is written, and a long read racing the MTU exchange.',
     'Trusted: expected layout builder (bsim/gattdb.py); the scripted server is only as adversarial as its 10 answer kinds; discoveries still advancing after 3000 requests are inconclusive.', 'DESIGN.md §5 C12')
 
 CLAIMED['C15'] = ('fault_enumeration', 'deterministic simulation: seeded key-store histories on a simulated file system, a crash / I/O error enumerated at every file-system step of every mutating operation',
-    'For each seeded history (update/delete/delete_all/get/get_all/get_resolving_keys over 3 peers x 3 namespaces + a default-namespace instance on one file, all PairingKeys field-presence combinations) a fault-free run is compared operation by operation with a reference map (replace and overlay update semantics side by side, default-namespace rule from the class docstring), then the history is re-run once per file-system step of every mutating operation with a process crash before/after that step or EIO/ENOSPC before it: the file must parse and equal the complete previous or complete new state of all namespaces, and the rest of the history must still behave like the model on the surviving tree. The fault space per history is enumerated completely; histories are sampled.',
+    'For each seeded history (update/delete/delete_all/get/get_all/get_resolving_keys over 3 peers x 3 namespaces + a default-namespace instance on one file, all PairingKeys field-presence combinations) a fault-free run is compared operation by operation with a reference map (replace and overlay update semantics side by side, default-namespace rule from the class docstring), then the history is re-run once per file-system step of every mutating operation with a process crash before/after that step or EIO/ENOSPC before it: the file must parse and equal the complete previous or complete new state of all namespaces, and the rest of the history must still behave like the model on the surviving tree. The fault space per history is enumerated completely; histories are sampled. Half of the histories use one long-lived store instance per namespace (several live instances sharing the file), half a fresh instance per operation.',
     'Trusted: SimFS process-crash model (flushed writes survive, user-space buffers do not, rename atomic, inode semantics); power-loss semantics are not claimed.', 'DESIGN.md §5 C15')
 
 CLAIMED['C16'] = ('fault_enumeration', 'deterministic simulation: seeded (procedure, fault kind, latency profile, bystander connection) cases; the fault is enumerated at every air-message boundary of the procedure',
-    'One awaited procedure per case out of 32 (GATT read/long read/write/discovery/subscribe/notify+read, EATT CCCD write, server indication, pair, encrypt, LE CoC connect/disconnect/drain, connection parameter update over L2CAP, remote features, pending LE and BR/EDR connect, pending disconnect, queued HCI commands, classic channel connect/disconnect, ERTM transfer, RFCOMM start/open/drain, SDP continuation query, AVDTP discover, remote name/features). A fault-free run counts the N messages the procedure exchanges over the air; the case is re-run once for every k in 0..N with a disconnection by the initiator side, by the responder side, a supervision timeout reported by both controllers, or loss of the HCI transport of either side, fired right after air message k, optionally with a second idle connection on the initiator. Oracle after quiescence + up to 60 virtual seconds: no awaited call still pending; Host.connections == Device.connections == controller tables on every reachable node (host == device behind a lost transport), both ends of each link agree, no subscription / pending indication / SMP session / L2CAP channel, identifier or request entry / queued packet remains for the dead handle, and the untouched connection is still there and answers a request. The boundary space per case is enumerated completely; cases are sampled.',
+    'One awaited procedure per case out of 32 (GATT read/long read/write/discovery/subscribe/notify+read, EATT CCCD write, server indication, pair, encrypt, LE CoC connect/disconnect/drain, connection parameter update over L2CAP, remote features, pending LE and BR/EDR connect, pending disconnect, queued HCI commands, classic channel connect/disconnect, ERTM transfer, RFCOMM start/open/drain, SDP continuation query, AVDTP discover, remote name/features). A fault-free run counts the N messages the procedure exchanges over the air; the case is re-run once for every k in 0..N with a disconnection by the initiator side, by the responder side, a supervision timeout reported by both controllers, or loss of the HCI transport of either side, fired right after air message k, optionally with a second idle connection on the initiator. Oracle after quiescence + up to 60 virtual seconds: no awaited call still pending; Host.connections == Device.connections == controller tables on every reachable node (host == device behind a lost transport), both ends of each link agree, no subscription / pending indication / SMP session / L2CAP channel, identifier or request entry / queued packet remains for the dead handle, and the untouched connection is still there and answers a request. The boundary space per case is enumerated completely; cases are sampled. Further: boundaries counted at the HCI packets read by the host that loses its transport (the loss happens before any task woken by packet k has run); a host that does not read its transport during the fault (events delivered in one burst); scenario reuse: a CCCD write, the disconnection of its connection and a new connection that is given the same handle all reach the stalled server host in one burst.',
     'Trusted: supervision timeout emulated by the virtual controllers reporting Disconnection Complete (0x08); controller entries with handle 0 are pages in progress; a waiter ending with any result, error or cancellation is accepted.', 'DESIGN.md §5 C16')
 
 CLAIMED['C17'] = ('exploration', 'deterministic simulation: seeded sequences of hostile frames injected by the simulated peer or controller into a live connection, then a reference request; wall-clock, step and call-depth guards per frame',
-    'A complete victim stack with one connection receives 1-14 hostile frames on one target: ATT to its server (also with an indication awaiting confirmation), ATT to its client (also with a request pending), SMP, LE signalling, arbitrary CIDs, raw L2CAP frames with falsified length fields; classic signalling, SDP, RFCOMM, the HFP AT stream of an AG and of an HF (also with a command pending), AVDTP, AVCTP (the attacker opens these channels through a real bumble client and then writes garbage into them); HCI event / ACL / ISO / SCO / unknown packets injected into the controller->host channel. Frames are random bytes, valid PDUs of per-protocol corpora that are truncated, extended, bit-flipped, concatenated or get their length fields falsified, deeply nested SDP elements, AVDTP/AVCTP fragment-flag permutations, AT lines with unbalanced quotes/parentheses and missing terminators. Oracle: each frame is processed within 8 s wall / 60000 loop steps / 300 nested Python calls (sys.setprofile meter, so a RecursionError that bumble swallows is seen too); the connection stays in Device.connections and Host.connections; a request that was pending during the attack concludes; the reference request (ATT read, second indication, Pairing Request, LE credit based connection, L2CAP echo, SDP search, echo over the DLC, AT+CIND?, an HF command, AVDTP discover, AVCTP command, HCI command + GATT read) is answered as before the attack. Sampling, not proof.',
+    'A complete victim stack with one connection receives 1-14 hostile frames on one target: ATT to its server (also with an indication awaiting confirmation), ATT to its client (also with a request pending), SMP, LE signalling, arbitrary CIDs, raw L2CAP frames with falsified length fields; classic signalling, SDP, RFCOMM, the HFP AT stream of an AG and of an HF (also with a command pending), AVDTP, AVCTP (the attacker opens these channels through a real bumble client and then writes garbage into them); HCI event / ACL / ISO / SCO / unknown packets injected into the controller->host channel. Frames are random bytes, valid PDUs of per-protocol corpora that are truncated, extended, bit-flipped, concatenated or get their length fields falsified, deeply nested SDP elements, AVDTP/AVCTP fragment-flag permutations, AT lines with unbalanced quotes/parentheses and missing terminators. Oracle: each frame is processed within 8 s wall / 60000 loop steps / 300 nested Python calls (sys.setprofile meter, so a RecursionError that bumble swallows is seen too); the connection stays in Device.connections and Host.connections; a request that was pending during the attack concludes; the reference request (ATT read, second indication, Pairing Request, LE credit based connection, L2CAP echo, SDP search, echo over the DLC, AT+CIND?, an HF command, AVDTP discover, AVCTP command, HCI command + GATT read) is answered as before the attack. Sampling, not proof. Variant att_client_late: stray responses of other kinds while a read is pending, then the late answer, then at once the next request.',
     'Trusted: the classification of legitimate closes (well-formed Disconnection/Connection Complete for the live handle, Hardware Error, FCS-valid SABM/DISC/DM and PN/MSC/FCon/FCoff/CLD) for which the reference is skipped; exceptions contained at the simulated transport boundary are ordinary.', 'DESIGN.md §5 C17')
 
 CLAIMED['C13'] = ('exploration', 'deterministic simulation: seeded pairing configurations, user answers with delays, in-flight SMP corruption, reconnection in both roles; association-model table enumerated',
-    'All 100 cells of the association-model table (5x5 IO capabilities x legacy/SC x MITM) are walked in every tier; seeded search over SC/MITM/bonding and 4-bit key-distribution masks per side, central- or peripheral-initiated pairing, user answers (reject, wrong passkey, compare no, confirm no, delays, passkey 000000), one SMP PDU corrupted in flight, a second pairing on the same connection, then reconnection in the same and in swapped roles with encrypt(). Oracle: pair() and the responder event both conclude, both succeed or both fail, link encrypted, association model and display/input roles equal the transcribed Table 2.8, key authenticated flags <=> passkey/numeric comparison, SC LTKs equal, legacy copies equal what the peer generated, no keys after a forced failure, and on reconnection the key in LE Enable Encryption equals the key in the peripheral Long Term Key Request Reply. Sampling, not proof.',
+    'All 100 cells of the association-model table (5x5 IO capabilities x legacy/SC x MITM) are walked in every tier; seeded search over SC/MITM/bonding and 4-bit key-distribution masks per side, central- or peripheral-initiated pairing, user answers (reject, wrong passkey, compare no, confirm no, delays, passkey 000000), one SMP PDU corrupted in flight, a second pairing on the same connection, then reconnection in the same and in swapped roles with encrypt(). Oracle: pair() and the responder event both conclude, both succeed or both fail, link encrypted, association model and display/input roles equal the transcribed Table 2.8, key authenticated flags <=> passkey/numeric comparison, SC LTKs equal, legacy copies equal what the peer generated, no keys after a forced failure, and on reconnection the key in LE Enable Encryption equals the key in the peripheral Long Term Key Request Reply. Sampling, not proof. A second pairing on the same connection (20% of the seeded cases) must have the same outcome on both sides.',
     'Trusted: transcription of Table 2.8 (DESIGN.md App. C); identity address type = static random so that bonded keys are found by address; OOB and CTKD over BR/EDR not covered; LTK request event injected because the virtual controller grants encryption by itself.', 'DESIGN.md §5 C13')
 
 CLAIMED['C19'] = ('exploration', 'deterministic simulation: seeded SDP record sets/queries with 1-3 simultaneous clients, AVDTP/AVCTP fragment sequences with injected fragment faults, AVDTP stream procedure sequences',
-    'Four seeded scenario families over real L2CAP on BR/EDR links: SDP client transactions against an independent matcher (every UUID of the pattern, nested sequences, 16/128-bit forms) and attribute filter, for client MTU 48..65535 and 1-3 clients connected and querying at once; AVDTP send_message <-> MessageAssembler in both directions for payloads from 0 to 255 fragments (every packet <= peer MTU, byte-identical reassembly) with a dropped/duplicated/mislabelled fragment on one message of a sequence costing only that message; AVCTP reassembly of spec-conformant fragments from a scripted peer with the same faults; AVDTP configure/open/start/suspend/close/abort sequences (legal and illegal) leaving source and sink in the same state as a reference machine. Sampling, not proof.',
+    'Four seeded scenario families over real L2CAP on BR/EDR links: SDP client transactions against an independent matcher (every UUID of the pattern, nested sequences, 16/128-bit forms) and attribute filter, for client MTU 48..65535 and 1-3 clients connected and querying at once; AVDTP send_message <-> MessageAssembler in both directions for payloads from 0 to 255 fragments (every packet <= peer MTU, byte-identical reassembly) with a dropped/duplicated/mislabelled fragment on one message of a sequence costing only that message; AVCTP reassembly of spec-conformant fragments from a scripted peer with the same faults; AVDTP configure/open/start/suspend/close/abort sequences (legal and illegal) leaving source and sink in the same state as a reference machine. Sampling, not proof. SDP queries may be abandoned (cancelled) right after the request went out, followed at once by the next query; scenario slow_acceptor: an AVDTP transaction answered late while 0-40 later transactions complete on the same channel.',
     'Trusted: the reference matcher/filter and fragmenters in props/c19.py; SDP answers needing more than 60 continuation rounds are not compared; codec used to size expected SDP answers. Open findings: AVCTP assembler (fix conflicts with an existing test), no initiator-side Stream.abort.', 'DESIGN.md §5 C19')
 
 CLAIMED['C20'] = ('exploration', 'deterministic simulation: seeded RFCOMM parameters, write patterns and open/close orders with a wire-level frame/credit monitor; HFP feature-set matrix; scripted raw AT lines',
-    'Seeded search over RFCOMM maximum frame size (23..32767) and initial credits (1..7) per side, L2CAP MTU, 1-3 data links, write sizes in both directions at once, closing from either end and re-opening, multiplexer shutdown; an independent frame parser on each sender boundary checks information size <= the receiver announced maximum and data frames <= credits, streams must be byte-identical and complete while there is wire activity, DLC/multiplexer states and tables must correspond after set-up and teardown. HFP: initiate_slc() completes for drawn HF/AG feature subsets, indicator, codec and call-hold sets with both sides holding the same features, indicators, codecs, call-hold set and HF indicators, the AG reporting slc_complete once; every raw AT line (all commands the HF role emits, plus variants with 0-4 extra/missing parameters) is concluded by exactly one OK / ERROR / +CME ERROR. Sampling, not proof.',
+    'Seeded search over RFCOMM maximum frame size (23..32767) and initial credits (1..7) per side, L2CAP MTU, 1-3 data links, write sizes in both directions at once, closing from either end and re-opening, multiplexer shutdown; an independent frame parser on each sender boundary checks information size <= the receiver announced maximum and data frames <= credits, streams must be byte-identical and complete while there is wire activity, DLC/multiplexer states and tables must correspond after set-up and teardown. HFP: initiate_slc() completes for drawn HF/AG feature subsets, indicator, codec and call-hold sets with both sides holding the same features, indicators, codecs, call-hold set and HF indicators, the AG reporting slc_complete once; every raw AT line (all commands the HF role emits, plus variants with 0-4 extra/missing parameters) is concluded by exactly one OK / ERROR / +CME ERROR. Sampling, not proof. After the SLC the AG reports indicator changes, some crossing a pending HF command; both sides must hold the same indicator values afterwards.',
     'Trusted: the frame parser in props/c20.py; negotiated maximum per direction = receiver announced frame size; per-run data volume <= 60 KB (quick).', 'DESIGN.md §5 C20')
 
 CLAIMED['C02'] = ('exploration', 'deterministic simulation: seeded packet streams x enumerated chunkings through every framer; client cut-off at every byte position on the server transports',
